@@ -1,7 +1,108 @@
 package secp256k1
 
-import "testing"
+// SEC1 decoding oracle (math/big) and decoder replay.
 
-func vRunCase5(t *testing.T, c vCase) string {
-	return "unknown case kind " + c.Kind
+import (
+	"encoding/hex"
+	"math/big"
+	"testing"
+)
+
+// vSec1Parse returns the point encoded by b, or ok=false if b is not a canonical SEC1 encoding
+// (00 | 02/03||x with x<p and x^3+7 square | 04||x||y with x,y<p on the curve).
+func vSec1Parse(b []byte) (vPt, bool) {
+	switch {
+	case len(b) == 1 && b[0] == 0:
+		return vInf(), true
+	case len(b) == 33 && (b[0] == 2 || b[0] == 3):
+		x := new(big.Int).SetBytes(b[1:])
+		if x.Cmp(vP) >= 0 {
+			return vPt{}, false
+		}
+		rhs := vAdd(vMul(vMul(x, x), x), big.NewInt(7))
+		if !vIsSquare(rhs) {
+			return vPt{}, false
+		}
+		y := vSqrt(rhs)
+		if y.Bit(0) != uint(b[0]&1) {
+			y = vModP(new(big.Int).Neg(y))
+		}
+		return vPt{x: x, y: y}, true
+	case len(b) == 65 && b[0] == 4:
+		x, y := new(big.Int).SetBytes(b[1:33]), new(big.Int).SetBytes(b[33:])
+		if x.Cmp(vP) >= 0 || y.Cmp(vP) >= 0 {
+			return vPt{}, false
+		}
+		if vMul(y, y).Cmp(vAdd(vMul(vMul(x, x), x), big.NewInt(7))) != 0 {
+			return vPt{}, false
+		}
+		return vPt{x: x, y: y}, true
+	}
+	return vPt{}, false
+}
+
+func vRunCase5(t *testing.T, c vCase) (msg string) {
+	switch c.Kind {
+	case "el-decode":
+		in := vHex(c.A)
+		want, ok := vSec1Parse(in)
+		type dec struct {
+			name string
+			f    func(e *Element) error
+			form func() bool
+		}
+		decs := []dec{
+			{"Decode", func(e *Element) error { return e.Decode(in) }, func() bool { return true }},
+			{"UnmarshalBinary", func(e *Element) error { return e.UnmarshalBinary(in) }, func() bool { return true }},
+			{"DecodeHex", func(e *Element) error { return e.DecodeHex(hex.EncodeToString(in)) }, func() bool { return true }},
+			{"DecodeCompressed", func(e *Element) error { return e.DecodeCompressed(in) }, func() bool { return len(in) == 33 }},
+			{"DecodeUncompressed", func(e *Element) error { return e.DecodeUncompressed(in) }, func() bool { return len(in) == 65 }},
+		}
+		if len(in) == 65 && in[0] == 4 {
+			decs = append(decs, dec{"DecodeCoordinates", func(e *Element) error {
+				var x, y [32]byte
+				copy(x[:], in[1:33])
+				copy(y[:], in[33:])
+				return e.DecodeCoordinates(x, y)
+			}, func() bool { return true }})
+		}
+		pre := vMulPt(big.NewInt(5), vG())
+		for _, d := range decs {
+			e := vElementOf(pre, big.NewInt(9))
+			var err error
+			func() {
+				defer func() {
+					if r := recover(); r != nil {
+						msg = d.name + "(" + c.A + ") panicked: " + toString(r)
+					}
+				}()
+				err = d.f(e)
+			}()
+			if msg != "" {
+				return msg
+			}
+			accept := ok && d.form()
+			if accept != (err == nil) {
+				return d.name + "(" + c.A + "): accepted=" + itoa(b2i(err == nil)) + ", canonical SEC1 says " + itoa(b2i(accept))
+			}
+			got, valid := vPointOf(e)
+			if err == nil {
+				if !valid || !vSame(got, want) {
+					return d.name + "(" + c.A + ") = " + got.String() + ", want " + want.String()
+				}
+			} else if !valid || !vSame(got, pre) {
+				return d.name + "(" + c.A + ") failed but changed the receiver to " + got.String()
+			}
+		}
+	default:
+		return vRunCase6(t, c)
+	}
+	return ""
+}
+
+func b2i(b bool) int {
+	if b {
+		return 1
+	}
+	return 0
 }
